@@ -65,6 +65,17 @@ func checkIsaCase(c isaCase) (mism [][2]string) {
 		bad("parse", "cannot parse %q: %v", c.Ins.Text(), err)
 		return
 	}
+	return checkIsaRunner(c, app.Instructions[0], isaMem)
+}
+
+// checkIsaRunner compares one instruction runner with the effect the specification defines.
+func checkIsaRunner(c isaCase, runner risc.InstructionRunner, isaMem int) (mism [][2]string) {
+	bad := func(cat, format string, a ...any) { mism = append(mism, [2]string{cat, fmt.Sprintf(format, a...)}) }
+	defer func() {
+		if p := recover(); p != nil {
+			bad("panic", "Go panic: %v", p)
+		}
+	}()
 	ctx := risc.NewContext(false, isaMem, false)
 	for a := 0; a < isaMem; a++ {
 		ctx.Memory[a] = int8(ImgByte(c.Img, a))
@@ -73,7 +84,6 @@ func checkIsaCase(c isaCase) (mism [][2]string) {
 		ctx.Registers[regByName(r)] = v
 	}
 	labels := map[string]int32{"L7": 28}
-	runner := app.Instructions[0]
 
 	if got := regSet(runner.ReadRegisters()); !sameStrings(got, c.Reads) {
 		bad("readset", "ReadRegisters = %v, want %v", got, c.Reads)
